@@ -35,7 +35,7 @@ CONSTANT Records       \* kind -> set of records that can be written to a file o
 Kinds == DOMAIN Records
 (* "struct2" / "fields2": the same two API pairs with another column layout - a 10-byte and an 11-byte column name, the
    string column last *)
-Apis == {"struct", "fields", "struct2", "fields2"}
+Apis == {"struct", "fields", "struct2", "fields2", "struct3"}      \* "struct3": a field whose Go name equals the tag of another field
 
 VARIABLES kind, api, file, wstate, rrow, rstate, out, nenc
 vars == <<kind, api, file, wstate, rrow, rstate, out, nenc>>
